@@ -282,11 +282,12 @@ package rtree
 //@   requires [boxes] forall i int :: 0 <= i && i < len(entries) ==> entries[i].bb != nil
 //@   requires [dists] len(minDists) >= len(entries)
 //@   ensures [subset] fresh(result) && len(result) <= len(entries) && subsetE(result, entries)
+//@   ensures [never_prunes_everything] len(entries) >= 1 && (forall i int :: 0 <= i && i < len(entries) ==> minDists[i] <= 1.7976931348623157e308) ==> len(result) >= 1
 //@   modifies nothing
 //@   loop 1 `for i := range entries`
-//@     invariant true
+//@     invariant #1 <= len(entries) && -1 <= best && best < #1 && (best == -1 ==> minMinMaxDist == 1.7976931348623157e308)
 //@   loop 2 `for i := range entries` #2
-//@     invariant fresh(pruned) && len(pruned) <= #2 && #2 <= len(entries) && subsetE(pruned, entries)
+//@     invariant fresh(pruned) && len(pruned) <= #2 && #2 <= len(entries) && subsetE(pruned, entries) && (best >= 0 && #2 > best ==> len(pruned) >= 1) && (best == -1 && #2 >= 1 && (forall i int :: 0 <= i && i < len(entries) ==> minDists[i] <= 1.7976931348623157e308) ==> len(pruned) >= 1)
 
 //@ lemma subset_kidsWf(a []entry, b []entry, lvl int)
 //@   requires subsetE(a, b) && kidsWf(b, lvl)
